@@ -95,7 +95,10 @@ fn ipv4_bytes(k: &SKey, off_units: u16, mf: bool, payload: &[u8]) -> Vec<u8> {
 /// IPv6 header + (optionally) fragment extension header + payload
 fn ipv6_bytes(k: &SKey, frag: Option<(u16, bool)>, payload: &[u8]) -> Vec<u8> {
     assert!(k.v6);
-    let pl = (payload.len() + if frag.is_some() { 8 } else { 0 }) as u16;
+    // jitter scenarios: the unfragmentable part carries a hop-by-hop options header in front of the fragment header
+    // (RFC 8200 4.5: per-fragment headers precede the fragment header in every fragment)
+    let hbh = k.jit && frag.is_some();
+    let pl = (payload.len() + if frag.is_some() { 8 } else { 0 } + if hbh { 8 } else { 0 }) as u16;
     let j = match (k.jit, frag) {
         (true, Some((o, mf))) => (o as u8).wrapping_mul(5).wrapping_add(if mf { 0 } else { 0x83 }),
         (true, None) => 0x5a,
@@ -106,10 +109,14 @@ fn ipv6_bytes(k: &SKey, frag: Option<(u16, bool)>, payload: &[u8]) -> Vec<u8> {
         h[3] = 0;
     }
     h.extend_from_slice(&pl.to_be_bytes());
-    h.push(if frag.is_some() { 44 } else { k.proto });
+    h.push(if hbh { 0 } else if frag.is_some() { 44 } else { k.proto });
     h.push(64 - (j & 31));
     h.extend_from_slice(&k.src);
     h.extend_from_slice(&k.dst);
+    if hbh {
+        // next header = fragment, length 0 (8 bytes), one PadN option of 6 bytes
+        h.extend_from_slice(&[44, 0, 1, 4, 0, 0, 0, 0]);
+    }
     if let Some((off_units, mf)) = frag {
         assert!(off_units < 0x2000);
         h.push(k.proto);
@@ -1696,7 +1703,7 @@ impl Check for C11 {
              (pair:<d>) datagram B with the same cut that differs from A in exactly one key component d in {:?}{}, return_buf x2, retain(evict all), retain(evict B); \
              (v4+v6) IPv6 datagram C (fragment extension header, via from_ip), one event delivering 5 non-fragment packets (IPv4 unfragmented with A's id, IPv6 without / with atomic fragment header, ARP, unknown ether type), return_buf x2, evict all, evict C; \
              (fault4/fault6) fault fragments on the stream (second last fragment ending higher, last fragment ending lower, data beyond the end, unaligned non-last fragment, offset+len=65536){}, return_buf (buffer filled with 0xEE first), evict all. \
-             in all scenarios over the 37 byte payload the fragments additionally differ in header bits outside the stream identity that a receiver ignores (DSCP/ECN, TTL / hop limit, traffic class, flow label, VLAN PCP/DEI, reserved byte and reserved bits of the IPv6 fragment header set). bound: all histories of <= {} deliveries. second model: IpDefragBuf::add with offsets {:?} x lengths {:?} x more_fragments, all sequences of depth <= {} from an empty and from a recycled (0xEE) buffer, merged on (buffer state, reference state). \
+             in all scenarios over the 37 byte payload the fragments additionally differ in header bits outside the stream identity that a receiver ignores (DSCP/ECN, TTL / hop limit, traffic class, flow label, VLAN PCP/DEI, reserved byte and reserved bits of the IPv6 fragment header set) and IPv6 fragments carry a hop-by-hop options header in front of the fragment header. bound: all histories of <= {} deliveries. second model: IpDefragBuf::add with offsets {:?} x lengths {:?} x more_fragments, all sequences of depth <= {} from an empty and from a recycled (0xEE) buffer, merged on (buffer state, reference state). \
              oracle after every delivery: reference pool (byte map + end per stream key, written in the check): Some(payload) exactly on the delivery that covers [0,end) and Ok(None) before; payload and ip_number equal the reference, the original datagram and what a fresh pool returns; set of active streams == reference (completed/evicted streams are gone, duplicates after completion open a fresh stream); end / filled ranges / filled bytes of every stream == reference; all other streams bit-identical before/after; non-fragments return Ok(None) and leave the snapshot unchanged; Err of the documented class exactly for unaligned / too big / conflicting end and nothing changes; evicted buffers appear in the free lists; a stale 0xEE byte in a payload is a leak. \
              Streams whose end was accepted BELOW already buffered data (accepted silently by the crate, outside the property) only need: no panic, no payload other than the single consistent one. \
              a state = (verif_snapshot of the real pool with bytes outside the filled ranges masked, reference pool, lengths of held payloads, multiset of remaining events); states are merged only if all coincide; non-trivial = the pool holds a stream, a pooled buffer or a payload was handed out.",
